@@ -129,6 +129,17 @@ CLAIMS = {
         "are parsed independently and their MAC recomputed; libksi's HMAC construction is compared with RFC 2104 (Python hmac) for every algorithm of the build.",
    note="quick: every bit of every region of a signing reply on the blocking client, every 3rd payload bit for the other kinds, every 5th payload bit on async/HA; thorough: every bit everywhere. HTTP transport not bound; v1 only as 'other version rejected'.",
    technique="TLC-checked PDU authentication model + exhaustive per-bit replay of its deviation cases into the real clients; independent recomputation of request MACs"),
+ "C18": dict(level="model_checking", design_ref="DESIGN.md 4/C18",
+   text="PubFile.tla defines declaratively which record sequences form a publications file (Accept), the signed range (SignedRecords), when a file is Trusted "
+        "(a verification-case vector: signed range, signing key, certificate chain, trust store, subject constraints, byte alterations) and the lookups (ByTime, "
+        "Nearest, Latest, Find, CertById). MC_PubFile enumerates every record sequence up to a bound over {header, certificate, publication, signature, unknown "
+        "critical, unknown non-critical} (+ magic variants), every verification case within two deviations of the good one, and every small publication / "
+        "certificate list with every query; TLC checks sanity invariants and exports the expected answers. Each case is realised as real bytes by the independent "
+        "builder and a test CA generated on the spot (own DER encoder, openssl CLI for RSA / PKCS#7) and given to KSI_PublicationsFile_parse, "
+        "_getSignedDataLength, _verify / KSI_verifyPublicationsFile and the lookup functions; every accepted structure is also signed over the spec's range and "
+        "must verify. Byte alterations cover the signed range, the signature value and the embedded signer certificate.",
+   note="quick: sequences <= 4 records, every 7th octet of altered regions, publication lists <= 2; thorough: <= 6 records, every octet, lists <= 3. Download of the file (HTTP) is not bound.",
+   technique="TLC enumeration of a declarative publications-file model + replay of every case into the real parser / PKI verification / lookups with independently built, really signed files"),
 }
 for e in ENGINES:
     e["serves_properties"] = sorted(CLAIMS)
